@@ -23,7 +23,8 @@ RULES = {
                   'of its own key; the only writer stores pinv(_fd_matrix(key)) under exactly that key',
     'R-NOSHARE': 'no mutable default argument and no stateful module level instance is shared between objects on the '
                  'call path; the difference-function holders stored on the rule classes have no instance state',
-    'R-NOMUTATE': 'a call never writes in place into its input array x or into the call arguments',
+    'R-NOMUTATE': 'a call never writes in place into its input array x, into the call arguments, or into the arrays of a user built '
+                  'step generator (per coordinate base_step / step_nom), which other calls and objects share',
 }
 
 
@@ -292,3 +293,36 @@ def nomutate(ctx):
         rep.check(not bad, 'R-NOMUTATE', 'core.%s.__call__' % cls, core.relpath,
                   {'paths': len(ex.paths), 'in_place_writes': bad[:2]}, 'inputs are never written in place',
                   '%s/%s/x.shape=%s' % (cls, sorted(kw.items()), xshape), key='mutate-input')
+    # ... nor into arrays that belong to the configuration: a step generator built with one base step per coordinate (and a
+    # nominal step array) is shared between calls and objects
+    for cls, kw, xshape in (('Gradient', dict(method='central'), (2,)), ('Derivative', dict(method='forward', n=1), (2,)),
+                            ('Hessian', dict(method='central'), (2,))):
+        def body(s, cls=cls, kw=kw, xshape=xshape):
+            from ..dvrun import tensor_f
+            I = s.interp
+            C = I.get_global('core', cls)
+            G = I.get_global('step_generators', 'MinStepGenerator')
+            base = Arr((2,), [DV({('base', 0)}, 'f', 'pos'), DV({('base', 1)}, 'f', 'pos')])
+            nom = Arr((2,), [DV({('nom', 0)}, 'f', 'pos'), DV({('nom', 1)}, 'f', 'pos')])
+            out = []
+            for gkw in (dict(base_step=base), dict(base_step=base, step_nom=nom)):
+                gen = G(step_ratio=2, num_steps=6, **gkw)
+                f = bicomplex_aware(s, s.elementwise_f()) if cls == 'Derivative' else tensor_f(s, 2, ())
+                d = C(f, step=gen, **kw)
+                b0, n0 = (len(base.buf.writes), list(base.buf.data)), (len(nom.buf.writes), list(nom.buf.data))
+                d(s.x_array(xshape))
+                out.append((len(base.buf.writes) - b0[0], len(nom.buf.writes) - n0[0], b0[1] == list(base.buf.data),
+                            n0[1] == list(nom.buf.data)))
+            return out
+        ex = explore(ctx.repo, body, pinned={'(np.abs(step) > 0).all()': True})
+        bad = []
+        for decisions, res, exc in ex.paths:
+            if exc is not None:
+                bad.append({'raises': exc.exc_name, 'message': exc.msg[:80]})
+                continue
+            for wb, wn, sameb, samen in res:
+                if wb or wn or not sameb or not samen:
+                    bad.append({'writes_to_base_step': wb, 'writes_to_step_nom': wn})
+        rep.check(not bad, 'R-NOMUTATE', 'step_generators.MinStepGenerator.__call__', ctx.repo.module('step_generators').relpath,
+                  {'paths': len(ex.paths), 'in_place_writes': bad[:2]}, 'the arrays of a user built step generator are never written',
+                  '%s/%s/array base_step' % (cls, sorted(kw.items())), key='mutate-config')
